@@ -39,6 +39,12 @@ func main() {
 			genC02(g, n, os.Stdout)
 		case "c12":
 			genC12(g, n, os.Stdout)
+		case "c05":
+			genC05(g, n, os.Stdout)
+		case "c15":
+			genC15(g, n, os.Stdout)
+		case "c07":
+			genC07(g, n, os.Stdout, len(os.Args) > 5 && os.Args[5] == "full")
 		case "c08":
 			genC08(g, n, os.Stdout, n > 1)
 		case "c06":
